@@ -62,7 +62,7 @@ def check_constructor(ctx):
     cfg = cfg_of(fi.node)
     stores = [n for n in cfg.nodes if n.kind == "stmt" and _is_field_store(n.ast)]
     checks = [n for n in cfg.nodes if n.ast is not None and any(isinstance(c, ast.Call) and norm(c.func).endswith("_check_normalization") for p in own_parts(n) for c in walk_local(p))]
-    size_tests = [n for n in cfg.nodes if n.kind == "test" and isinstance(n.ast, ast.If) and ("count('1')" in norm(n.ast.test) or "& (" in norm(n.ast.test) or "log2" in norm(n.ast.test) or "bit_length" in norm(n.ast.test))]
+    size_tests = [n for n in cfg.nodes if n.kind == "test" and isinstance(n.ast, ast.If) and ("count('1')" in norm(n.ast.test) or any(isinstance(x, ast.BinOp) and isinstance(x.op, ast.BitAnd) for x in ast.walk(n.ast.test)) or "log2" in norm(n.ast.test) or "bit_length" in norm(n.ast.test))]
     if not stores or not size_tests:
         ctx.undecided(R1, fi.key, f"constructor shape not recognised (stores={len(stores)}, checks={len(checks)}, size tests={len(size_tests)})", fi)
         return
